@@ -556,6 +556,57 @@ Definition monitor_quic (l : list Z) : list Z :=
   | _ => [ERR_MALFORMED; 0]
   end.
 
+(* ---- tag 6: QUIC hole punch in the server role ------------------------------------------------------- *)
+(* 6 kt idQ p where  ok rid rkid
+   we punch towards address X for peer p; where = 0: the peer living at X (identity idQ) connects to
+   our listener from X meanwhile; where = 1: a peer with identity p connects from another address *)
+Definition holepunch_model (idQ p where_ : Z) : dialres :=
+  hole_punch (1%N, Z.to_N p) (if where_ =? 0 then (1%N, Z.to_N idQ) else (2%N, Z.to_N p)).
+
+Definition conform_ret (m : dialres) (ok rid : Z) : list Z :=
+  match m with
+  | DErr => if ok =? 0 then [] else [ERR_MISMATCH; 0; 0; ok; rid]
+  | DConn r => if (ok =? 1) && (rid =? Z.of_N r) then [] else [ERR_MISMATCH; 0; 1; Z.of_N r; ok; rid]
+  end.
+
+Definition conform_holepunch (l : list Z) : list Z :=
+  match l with
+  | [_; idQ; p; w; ok; rid; _] => conform_ret (holepunch_model idQ p w) ok rid
+  | _ => [ERR_MALFORMED; 0]
+  end.
+
+(* a dial for p returns a connection authenticated as p, or fails *)
+Definition monitor_holepunch (l : list Z) : list Z :=
+  match l with
+  | [_; idQ; p; w; ok; rid; rkid] =>
+      if negb (ok =? 1) then []
+      else if negb (rid =? rkid) then [ERR_PROPERTY; 0; 1; rid; rkid]
+      else if negb (rid =? p) then [ERR_PROPERTY; 0; 7; rid; p] else []
+  | _ => [ERR_MALFORMED; 0]
+  end.
+
+(* ---- tag 7: the upgrader -------------------------------------------------------------------------------- *)
+(* 7 sec kt kind dirIn exp remote  ok rid rkid
+   sec 0 noise 1 tls; kind 0 Upgrader.Upgrade, 1 TcpTransport.Dial (dirIn 1: WithSimultaneousConnect(ctx, false));
+   exp = the peer.ID argument (0 = ""), remote = the identity the remote endpoint holds *)
+Definition conform_upgrade (l : list Z) : list Z :=
+  match l with
+  | [_; _; _; dirIn; exp; remote; ok; rid; _] =>
+      conform_ret (upgrade (zbool dirIn) (expect_of exp) (Z.to_N remote)) ok rid
+  | _ => [ERR_MALFORMED; 0]
+  end.
+
+(* a named expected peer is enforced in both directions; the reported peer is the remote's *)
+Definition monitor_upgrade (l : list Z) : list Z :=
+  match l with
+  | [_; _; _; dirIn; exp; remote; ok; rid; rkid] =>
+      if negb (ok =? 1) then []
+      else if negb (rid =? rkid) then [ERR_PROPERTY; 0; dirIn; 1; rid; rkid]
+      else if negb (rid =? remote) then [ERR_PROPERTY; 0; dirIn; 2; rid; remote]
+      else if negb (exp =? 0) && negb (rid =? exp) then [ERR_PROPERTY; 0; dirIn; 3; rid; exp] else []
+  | _ => [ERR_MALFORMED; 0]
+  end.
+
 (* ---- dispatch ----------------------------------------------------------------------------------------- *)
 Definition conform_case (l : list Z) : list Z :=
   match l with
@@ -564,6 +615,8 @@ Definition conform_case (l : list Z) : list Z :=
   | 3 :: r => conform_tls r
   | 4 :: r => conform_dial r
   | 5 :: r => conform_quic r
+  | 6 :: r => conform_holepunch r
+  | 7 :: r => conform_upgrade r
   | _ => [ERR_MALFORMED; 99]
   end.
 
@@ -574,5 +627,7 @@ Definition monitor_case (l : list Z) : list Z :=
   | 3 :: r => monitor_tls r
   | 4 :: r => monitor_dial r
   | 5 :: r => monitor_quic r
+  | 6 :: r => monitor_holepunch r
+  | 7 :: r => monitor_upgrade r
   | _ => [ERR_MALFORMED; 99]
   end.
